@@ -6,6 +6,13 @@ hands the `n` groups of a stage to the pool as `n` independent jobs (`par_iter_m
 A pool has `w` workers; an idle worker may take any job that has not started. In the
 rendezvous experiment every system, once inside `run`, blocks (keeping its worker) until all
 `n` siblings have entered `run`; then it may leave.
+
+What the model leaves out on purpose: a rayon worker that *waits for nested work* (the worker
+running a batch controller waits for the batch's inner stage) is neither idle nor blocked — it
+runs other pending jobs on top of its stack. A system that follows a batch in the same group can
+therefore be kept from starting by a sibling that waits for it (the sibling's group was taken
+by the very worker whose stack holds the continuation). The rendezvous engine never lets a
+waiting system sit behind a batch of its own group; see `notes/C11.md`.
 -/
 namespace Shred
 
@@ -46,5 +53,93 @@ def PoolSt.run (n : Nat) : Nat → PoolSt → PoolSt
 
 /-- what the model predicts for a stage of `n` rendezvous systems on `w` workers -/
 def poolCompletes (w n : Nat) : Bool := ((PoolSt.init w n).run n (2 * n + 1)).done == n
+
+/-- `busy` of the `w` workers are held by something that does not take part in the stage (a
+system of an enclosing stage that is itself blocked): only the others are idle -/
+def poolCompletesBusy (w busy n : Nat) : Bool := poolCompletes (w - busy) n
+
+/-!
+## Which pool a dispatcher runs its stages on
+
+`DispatcherBuilder` (`builder.rs`) owns a *slot* `thread_pool: Arc<RwLock<Option<Arc<ThreadPool>>>>`
+(created empty by `new()`); everything a dispatcher does with rayon goes through the slot it was
+built with, read at **dispatch** time (`send_dispatcher.rs::dispatch_par`:
+`self.thread_pool.read().unwrap().as_ref().unwrap().install(..)`; `async_dispatcher.rs::dispatch`:
+`...spawn(..)`). The calls that touch slots:
+
+* `add_pool` / `with_pool`: `*self.thread_pool.write() = Some(pool)` — replaces the content of
+  the builder's own slot (also for dispatchers that were built with that slot earlier);
+* `add_batch` / `with_batch`: `dispatcher_builder.thread_pool = self.thread_pool.clone()` — the
+  builder of the batch *forgets its own slot* and uses the parent's — and then
+  `dispatcher_builder.build()`;
+* `build` / `build_async`: `get_or_insert_with(Self::create_thread_pool)` on the slot, where
+  `create_thread_pool` is `ThreadPoolBuilder::new().build()`: rayon's default size (`dflt` below:
+  `RAYON_NUM_THREADS` if set, else the number of cores). **It does not look at the stages.**
+
+So the dispatcher of a batch uses the slot its *parent builder was created with*; the batches
+registered on the batch's builder before it was added (depth ≥ 2) were built with — and keep —
+the slot the batch's builder was created with, which `add_batch` later detaches from that
+builder. Only the *size* of the pool in a slot is tracked.
+-/
+
+/-- the pool-relevant calls made on one `DispatcherBuilder`, in call order (all other calls —
+`add`, `add_barrier`, `add_thread_local` — do not touch a slot) -/
+inductive PB where
+  | nil : PB
+  /-- `add_pool(pool of p threads)`, then the rest -/
+  | pool (p : Nat) (rest : PB) : PB
+  /-- `add_batch(controller, inner, ..)` where the calls `inner` were made on the batch's builder
+  and the batch's own plan has stages of these widths (numbers of groups); then the rest -/
+  | batch (tag : Nat) (widths : List Nat) (inner : PB) (rest : PB) : PB
+deriving Repr
+
+/-- content of the builder's own slot after the calls, starting from content `s`
+(`add_batch` builds the inner dispatcher on this slot: `get_or_insert_with`) -/
+def PB.slot (dflt : Nat) : PB → Option Nat → Option Nat
+  | .nil, s => s
+  | .pool p r, _ => r.slot dflt (some p)
+  | .batch _ _ _ r, s => r.slot dflt (some (s.getD dflt))
+
+/-- a dispatcher: which batch it belongs to (`none` = the one `build` returns), the size of the
+pool it dispatches on, the widths of its stages -/
+structure Disp where
+  tag : Option Nat
+  pool : Nat
+  widths : List Nat
+deriving Repr, DecidableEq
+
+/-- the dispatchers of the batches registered by the calls `b` on a builder whose own slot
+finally holds a pool of `f` threads, nested ones included (pre-order) -/
+def PB.batches (dflt : Nat) (f : Nat) : PB → List Disp
+  | .nil => []
+  | .pool _ r => r.batches dflt f
+  | .batch tag ws inner r =>
+    ⟨some tag, f, ws⟩ :: (inner.batches dflt ((inner.slot dflt none).getD dflt) ++ r.batches dflt f)
+
+/-- `build()` / `build_async()` after the calls `b`, the top-level plan having stages of `widths` -/
+def PB.build (dflt : Nat) (b : PB) (widths : List Nat) : List Disp :=
+  let f := (b.slot dflt none).getD dflt
+  ⟨none, f, widths⟩ :: b.batches dflt f
+
+/-- no `add_pool` anywhere, at any depth: everything runs on default pools -/
+def PB.noPool : PB → Bool
+  | .nil => true
+  | .pool _ _ => false
+  | .batch _ _ inner r => inner.noPool && r.noPool
+
+/-- the last `add_pool` made on the builder itself -/
+def PB.lastPool : PB → Option Nat
+  | .nil => none
+  | .pool p r => match r.lastPool with | some q => some q | none => some p
+  | .batch _ _ _ r => r.lastPool
+
+/-- the batches registered on the builder itself (depth 1) -/
+def PB.direct : PB → List (Nat × List Nat)
+  | .nil => []
+  | .pool _ r => r.direct
+  | .batch tag ws _ r => (tag, ws) :: r.direct
+
+/-- every stage of the dispatcher can rendezvous on the dispatcher's pool -/
+def Disp.completes (d : Disp) : Bool := d.widths.all (poolCompletes d.pool)
 
 end Shred
